@@ -15,9 +15,11 @@ for s in $(seq 1 "$SEEDS"); do
   if (( s % 12 == 0 )); then wait; fi
 done
 wait
+# the likely-subtags generator: more runs when it meets nondeterminism (DET_LIKELY_RUNS)
+LR=${DET_LIKELY_RUNS:-16}
 for g in likely; do
-  "$BIN" trace --gen $g --seed 1 --from 0 --to 16 --threads 1 > "$OUT/a.$g" &
-  "$BIN" trace --gen $g --seed 1 --from 0 --to 16 --threads 4 > "$OUT/b.$g" &
+  "$BIN" trace --gen $g --seed 1 --from 0 --to "$LR" --threads 1 > "$OUT/a.$g" &
+  "$BIN" trace --gen $g --seed 1 --from 0 --to "$LR" --threads 7 > "$OUT/b.$g" &
 done
 wait
 bad=0; lines=0
